@@ -36,6 +36,13 @@ fn scan_stops(vt: &mut Vt) -> Vec<usize> {
 }
 
 fn check_chain(widths: &[usize]) -> Result<(), String> {
+    match crate::engine::guarded(|| check_chain_inner(widths)) {
+        Ok(r) => r,
+        Err(p) => Err(format!("widths {:?}: panic: {}", widths, p)),
+    }
+}
+
+fn check_chain_inner(widths: &[usize]) -> Result<(), String> {
     let mut vt = build_vt(widths[0], 2, Some(0));
     for &w in &widths[1..] {
         let _ = vt.resize(w, 2);
